@@ -366,18 +366,66 @@ class C08(ZooProp):
             "streams are counted and allowed. evaluations count injected faults; non-trivial = fault strictly inside the stream / an actual change "
             "/ a different target type; element counts > 2^20 are skipped (allocation failure is not modelled under ASan) and counted")
     min_eval = 20000
-    assumptions = ("assertions enabled (no -DNDEBUG), ASan + UBSan; a faulted element-count that would request more than 2^20 cells is excluded and counted",)
+    assumptions = ("main pass: assertions enabled (no -DNDEBUG), ASan + UBSan; second pass: -O2 -DNDEBUG under valgrind memcheck on the fixed stack catalogue",
+                   "a faulted element-count that would request more than 2^20 cells is excluded and counted (allocation failure is not modelled)")
     level_text = ("Complete enumeration of truncation points and of structural-word positions per generated dump, all ordered stack pairs, every failing "
                   "read index; differential against an independent reference parser of the format; thorough tier adds coverage-guided libFuzzer "
                   "campaigns on nine loader types with the same differential oracle inside the target.")
 
-    def check(self, tier, seed):
-        rc = super().check(tier, seed)
-        if rc != 0 or tier != "thorough":
-            return rc
-        from . import fuzz
+    def valgrind_pass(self, tier, seed):
+        """The same fault enumeration on an -O2 -DNDEBUG build (no assertions, no sanitizer) under valgrind memcheck:
+        a decision based on uninitialised bytes, or an invalid access, is reported there."""
         import json as _j
         import os as _os
+        st = zoo.fixed_stacks()
+        h = zoo.ZooH("zoo_C08_release", st, "C08", shards=len(st), flags=core.REL + (["-mbmi2"] if zoo.cpu_has_bmi2() else []), link_flags=[])
+        e1.build_all([h])
+        workdir = _os.path.join(core.WORK, self.pid)
+
+        def one(i):
+            out = _os.path.join(workdir, f"valgrind.{i}.stats.json")
+            rep = _os.path.join(workdir, f"valgrind.{i}.replay.json")
+            for p in (out, rep):
+                if _os.path.exists(p):
+                    _os.remove(p)
+            env = dict(h.env, VERIF_TIER=tier, VERIF_SEED=str(seed), VERIF_SHARD=f"{i}/{h.shards}", VERIF_C08_CASES="1" if tier == "quick" else "6")
+            rc, log, _ = core.run(["valgrind", "--quiet", "--error-exitcode=99", "--leak-check=no", h.bin, "--out", out, "--replay-out", rep], env=env, timeout=3 * 3600)
+            st_ = _j.load(open(out)) if _os.path.exists(out) else None
+            rp = _j.load(open(rep)) if _os.path.exists(rep) else None
+            return rc, log, st_, rp
+        res = core.parallel(one, list(range(h.shards)))
+        viol, faults = 0, 0
+        for rc, log, st_, rp in res:
+            if rc == 3:
+                raise core.InfraError("valgrind pass: harness error\n" + log[-1500:])
+            if rc != 0 and rc != "timeout":
+                case = dict(rp or {}, property=self.pid, harness=h.name, configuration="-O2 -DNDEBUG under valgrind memcheck", log_tail=log[-5000:])
+                p = core.save_replay(self.pid, case)
+                core.log(f"[C08] valgrind / release build: exit {rc}\n{log[-2500:]}")
+                e1.violation(self.pid, p)
+                viol += 1
+            elif st_:
+                faults += st_["evaluations"]
+        return viol, faults
+
+    def check(self, tier, seed):
+        rc = super().check(tier, seed)
+        if rc != 0:
+            return rc
+        import json as _j
+        import os as _os
+        ev_path = _os.path.join(core.EVIDENCE, self.pid + ".json")
+        viol, faults = self.valgrind_pass(tier, seed)
+        ev = _j.load(open(ev_path))
+        ev["coverage"]["valgrind_release_build"] = {"faults_injected": faults, "stacks": len(zoo.fixed_stacks()), "flags": " ".join(core.REL)}
+        ev["coverage"]["evaluations"] += faults
+        ev["violations"] = ev.get("violations", 0) + viol
+        _j.dump(ev, open(ev_path, "w"), indent=1)
+        if viol:
+            return 1
+        if tier != "thorough":
+            return 0
+        from . import fuzz
         res = fuzz.campaign(self.pid, seed, runs=2000000)
         viol = 0
         for r in res:
@@ -385,7 +433,6 @@ class C08(ZooProp):
                 core.log(f"[C08] libFuzzer artifact for {r['stack']} ({r['mode']} corpus):\n{r['log_tail'][-1500:]}")
                 e1.violation(self.pid, a)
                 viol += 1
-        ev_path = _os.path.join(core.EVIDENCE, self.pid + ".json")
         ev = _j.load(open(ev_path))
         ev["coverage"]["libfuzzer"] = [{k: r[k] for k in ("stack", "mode", "execs", "loaded", "excluded", "wall")} for r in res]
         ev["coverage"]["evaluations"] += sum(r["execs"] for r in res)
